@@ -189,7 +189,8 @@ pub fn native_minmax<T, const LESS: bool>(
                         }
                     }
                     let k = t.nth_key(i);
-                    let v = *t.get(&k).unwrap();
+                    // a key that is itself a mutable table may no longer be found under its hash
+                    let v = t.get(&k).copied().unwrap_or(Value::Nil);
                     let mut result = vm.init_table()?;
                     let t = result.0.as_mut().as_table_mut().unwrap();
                     t.insert(vm.init_string("key")?, k)?;
